@@ -396,3 +396,52 @@ def loops_over(f, container_pred):
                     out.append(n)
                     break
     return out
+
+
+def scenario_sources(g, f, idx, ctx, scen, atom_role, classify, at=None, depth_limit=8):
+    """Kinds of source the value of expression `idx` (in function f, context ctx) has in a *scenario*: the branch conditions that
+    atom_role(func, cond idx, ctx) -> (role or None, polarity) classifies take the truth values scen[role]. The flow is restricted
+    to the scenario (edges contradicting it are removed before the reaching definitions are computed), conditional expressions are
+    resolved by the same classification, locals are followed through the restricted definitions, copies are looked through.
+    classify(func, node, ctx) -> kind (str) for an expression that is a source, or None to keep descending."""
+    from ..expr import reaching_defs as _rd, defs_in_node as _din
+
+    def skip(a, b, lab):
+        if not lab or not isinstance(lab[0], int):
+            return False
+        role, pol = atom_role(lab[1], lab[0], a.ctx)
+        if role not in scen:
+            return False
+        truth = lab[2] if pol else (not lab[2])
+        return truth is not scen[role]
+    rds = _rd(g, skip_edge=skip)
+
+    def resolve(ff, i, c, depth):
+        n = strip_casts(ff, i)
+        if depth > depth_limit:
+            return {'other:depth'}
+        k = classify(ff, n, c)
+        if k is not None:
+            return {k}
+        if n['k'] == 'construct' and n.get('copymove') and len(n.get('args', [])) == 1:
+            return resolve(ff, n['args'][0], c, depth + 1)
+        if n['k'] == 'cond':
+            role, pol = atom_role(ff, n['cnd'], c)
+            if role in scen:
+                truth = scen[role] if pol else (not scen[role])
+                return resolve(ff, n['a'] if truth else n['b'], c, depth + 1)
+            return resolve(ff, n['a'], c, depth + 1) | resolve(ff, n['b'], c, depth + 1)
+        if n['k'] == 'ref' and n.get('sk') == 'local':
+            pt = g.point_of.get((id(c), n['i']))
+            out = set()
+            src = rds.get(pt.id, ()) if pt is not None else (rds.get(at.id, ()) if at is not None else ())
+            for (v, d) in src:
+                if v != n['id']:
+                    continue
+                dp = g.points[d]
+                for (vv, st, vx) in _din(dp.f, dp.n):
+                    if vv == n['id'] and vx is not None and vx != dp.n['i']:
+                        out |= resolve(dp.f, vx, dp.ctx, depth + 1)
+            return out or {'other:undefined'}
+        return {'other:' + n['k']}
+    return resolve(f, idx, ctx, 0)
